@@ -53,7 +53,7 @@ def plan(tier, seed):
         rng.shuffle(rest)
         combos = [c for c in combos if c[1] in base] + rest[:150]
     rng.shuffle(combos)
-    nsh = 11 if tier == 'quick' else 13
+    nsh = 10 if tier == 'quick' else 12
     for i in range(nsh):
         shards.append({'name': 'w1_%d' % i, 'kind': 'w1', 'N': N, 'combos': combos[i::nsh]})
     S = 4 if tier == 'quick' else 6
@@ -62,6 +62,8 @@ def plan(tier, seed):
     n3 = 1500 if tier == 'quick' else 20000
     shards.append({'name': 'w3_a', 'kind': 'w3', 'n': n3, 'seed': seed * 1000 + 1})
     shards.append({'name': 'w3_b', 'kind': 'w3', 'n': n3, 'seed': seed * 1000 + 2})
+    shards.append({'name': 'w2r', 'kind': 'w2r', 'n': 90 if tier == 'quick' else 1500,
+                   'seed': seed * 1000 + 4})
     shards.append({'name': 'formula', 'kind': 'formula', 'nmax': 250 if tier == 'quick' else 1000,
                    'seed': seed * 1000 + 3})
     return shards
@@ -80,10 +82,22 @@ def materialise(case):
     if g == 'w1':
         sizes = [(a, b) for a in range(1, case['N'] + 1) for b in range(1, case['N'] + 1)]
         L, R, groups = gen.tight_tables(case['measure'], case['threshold'], sizes,
+                                        op=case.get('comp_op', '>='),
                                         extra_overlap=case.get('extra_overlap', 0))
         return {'api': T.MEASURE_JOIN[case['measure']], 'ltable': L, 'rtable': R, 'l_key': 'id',
                 'r_key': 'id', 'l_attr': 's', 'r_attr': 's', 'tok': {'kind': 'ws', 'return_set': True},
-                'threshold': case['threshold'], 'comp_op': '>=', 'n_jobs': 1}
+                'threshold': case['threshold'], 'comp_op': case.get('comp_op', '>='),
+                'n_jobs': case.get('n_jobs', 1)}
+    if g == 'w2r':
+        rng = random.Random(case['seed'])
+        L, R, meta = gen.random_arrangement_tables(rng, case['measure'], case['threshold'],
+                                                   n_groups=case.get('groups', 150),
+                                                   max_size=case.get('max_size', 16),
+                                                   op=case.get('comp_op', '>='))
+        return {'api': T.MEASURE_JOIN[case['measure']], 'ltable': L, 'rtable': R, 'l_key': 'id',
+                'r_key': 'id', 'l_attr': 's', 'r_attr': 's', 'tok': {'kind': 'ws', 'return_set': True},
+                'threshold': case['threshold'], 'comp_op': case.get('comp_op', '>='),
+                'n_jobs': case.get('n_jobs', 1)}
     if g == 'pairs':      # explicit size triples (witnesses of contract anomalies)
         L, R, groups = gen.tight_tables(case['measure'], case['threshold'],
                                         [tuple(x) for x in case['sizes']])
@@ -140,8 +154,12 @@ def run_shard(shard, rec):
         contracts.attach_filter_utils(overlap=(kind == 'w3'))
     views = {}
     if kind == 'w1':
-        for (m, t) in shard['combos']:
+        for ci, (m, t) in enumerate(shard['combos']):
             case = w1_case(m, t, shard['N'])
+            if ci % 5 == 3 and t < 1.0:
+                case['comp_op'] = '>'
+            if ci % 7 == 5:
+                case['n_jobs'] = 3
             st = run_case(case, rec, ssj)
             nontrivial = bool(st and st.get('required'))
             rec.case(sig=('w1', m, t, shard['N']), nontrivial=nontrivial)
@@ -165,6 +183,21 @@ def run_shard(shard, rec):
         rec.count('w2_arrangement_groups', len(meta) if shard['part'] == 0 else 0)
         rec.sample({'workload': 'W2', 'S': S, 'groups': len(meta), 'thresholds': len(ths),
                     'example_arrangement': meta[len(meta) // 2]}, limit=1)
+    elif kind == 'w2r':
+        rng = random.Random(shard['seed'])
+        ths = gen.threshold_pool('neighbours')
+        for i in range(shard['n']):
+            m = rng.choice(MEASURES3)
+            t = rng.choice(ths) if rng.random() < 0.8 else gen.random_threshold(rng)
+            case = {'gen': 'w2r', 'seed': shard['seed'] * 100000 + i, 'measure': m, 'threshold': t,
+                    'comp_op': rng.choice(['>=', '>=', '>']), 'n_jobs': rng.choice([1, 1, 2]),
+                    'max_size': rng.choice([8, 16, 24])}
+            if case['comp_op'] == '>' and t >= 1.0:
+                case['comp_op'] = '>='
+            st = run_case(case, rec, ssj)
+            rec.case(sig=('w2r', case['seed']), nontrivial=bool(st and st.get('required')))
+        rec.sample({'workload': 'W2r', 'note': 'random interleavings of x-only/y-only/shared tokens for '
+                    'sets up to 24 tokens with the least qualifying overlap', 'last_case': case}, limit=1)
     elif kind == 'w3':
         for i in range(shard['n']):
             case = {'gen': 'w3', 'seed': shard['seed'] * 100000 + i}
